@@ -326,6 +326,23 @@ def req_C03(r, tier):
         for t in range(8):
             out.append(("ed.seq:P+T", "ed.seq D%s;T%d;A0,1;S0,1;A2,1;E2,0;O2;F2;F0;O0" % (b.hex(), t)))
         out.append(("ed.seq:P-P", "ed.seq D%s;N0;A0,1;Z2;S0,0;Z4;B0;A0,0;E6,7;C0;P0,3;E9,10" % b.hex()))
+    # the point formulas of each backend copy called DIRECTLY (serial, AVX2 and IFMA parallel formulas): doubling of every
+    # pool point, and add / sub on exceptional pairs (P±P, P±(-P), identity, every torsion point, P+T) and random pairs
+    valid = [(lab, b) for lab, b in pts if decompress(b) is not None]
+    special = [b for lab, b in valid if lab in ("identity", "B", "-B", "2B") or lab.startswith("T") or lab.startswith("B+T")]
+    for c in ("serial", "avx2", "ifma"):
+        for lab, b in valid:
+            out.append(("ed.direct.%s.double:%s" % (c, lab.split("(")[0][:12]), "ed.direct.%s.double %s" % (c, b.hex())))
+        pairs = [(a, b) for a in special for b in special]
+        for lab, b in valid[:sz(tier, 25, 80)]:
+            nb = compress(neg(decompress(b)))
+            pairs += [(b, b), (b, nb), (nb, b), (b, special[0]), (special[0], b)] + [(b, t) for t in special[4:12]]
+        for i in range(sz(tier, 40, 600)):
+            pairs.append((r.choice(valid)[1], r.choice(valid)[1]))
+        step = 1 if tier != QUICK else 3
+        for a, b in pairs[::step]:
+            for alg in ("add", "sub"):
+                out.append(("ed.direct.%s.%s" % (c, alg), "ed.direct.%s.%s %s %s" % (c, alg, a.hex(), b.hex())))
     for lab, b in pts:
         out.append(("ed.to_montgomery:" + lab, "ed.to_montgomery " + b.hex()))
     for n in range(0, 70, 1 if tier != QUICK else 7):
